@@ -428,8 +428,9 @@ def _sort_contract(name, key, decreasing, requires=()):
         modifies=[("InfrastructureInfo." + f, "FRESH") for f in ("constraint_matrix", "constraint_limits", "phases", "voltages", "constraint_ids", "station_ids",
                                                                   "_station_ids_dict", "max_pilot", "min_pilot", "allowable_pilots", "is_continuous")] + ["alloc"],
         requires=list(requires),
-        ensures=[C("C08.permutation_of_the_sessions", lambda old, new, ret: is_permutation(ret, old.evs)),
-                 C("C08.priority_order", lambda old, new, ret: ordered_by(old, ret, lambda e: key(old, e), decreasing))])
+        # C10: the served order is a function of the priority keys, not of the order in which the sessions were listed (up to ties)
+        ensures=[C("C08.permutation_of_the_sessions", lambda old, new, ret: is_permutation(ret, old.evs), props=("C08", "C10")),
+                 C("C08.priority_order", lambda old, new, ret: ordered_by(old, ret, lambda e: key(old, e), decreasing), props=("C08", "C10"))])
 
 
 def laxity_key(s, e):
